@@ -30,9 +30,9 @@ type Input struct {
 // Families lists every family name with a short tag describing what the
 // detection of a member leaves behind in the pooled scratch state.
 var Families = []string{
-	"text", "text_nul", "latin1", "bom16", "html_meta", "xml_enc",
+	"text", "text_nul", "latin1", "bom16", "html_meta", "html_mix", "xml_enc",
 	"json", "json_trunc", "json_bad", "geojson", "har", "gltf", "json_deep", "json_nest", "json_wide", "json_esc",
-	"ndjson", "ndjson_bad", "csv", "csv_ragged", "csv_big", "tsv",
+	"ndjson", "ndjson_bad", "json_lines", "csv", "csv_ragged", "csv_big", "tsv", "csv_mix",
 	"png", "gif", "pdf", "zip", "docx", "ole", "elf", "gzip", "random", "empty",
 	"shebang", "svg", "rtf", "srt", "vcard", "bom8", "utf8", "tar", "sample", "corpus", "poison", "tar_poly", "overlay",
 }
@@ -179,11 +179,11 @@ func (in Input) Tag() string {
 		return "json"
 	case "json_nest":
 		return "nest-cap"
-	case "json", "json_wide", "ndjson", "json_esc":
+	case "json", "json_wide", "ndjson", "json_esc", "json_lines":
 		return "json"
 	case "csv_ragged":
 		return "csv-early-return"
-	case "csv", "csv_big", "tsv":
+	case "csv", "csv_big", "tsv", "csv_mix":
 		return "csv"
 	}
 	return "other"
@@ -307,6 +307,57 @@ func (in Input) base() []byte {
 			label = fmt.Sprintf("x-verif-cs-%d-%d", v, in.Seed)
 		}
 		return []byte("<!DOCTYPE html>\n" + pad + "<html><head><meta charset=\"" + label + "\"><title>t</title></head><body>" + string(textN(clamp(n, 0, 1<<16), in.Seed)) + "</body></html>")
+	case "html_mix":
+		// An HTML head holding N elements drawn from the forms below (V: bit k = form k in
+		// play, none: all; P-1, if P > 0: the form of the first one), each with a label of its
+		// own. Which of them decides the charset is the prescan's business; that it decides
+		// the same way whatever was scanned before is ours.
+		labels := []string{"utf-8", "ISO-8859-2", "windows-1251", "Shift_JIS", "koi8-r", "euc-kr", "big5", "x-user-defined"}
+		var forms []int
+		for k := 0; k < 12; k++ {
+			if v&(1<<k) != 0 || v&0xfff == 0 {
+				forms = append(forms, k)
+			}
+		}
+		var b bytes.Buffer
+		b.WriteString("<!DOCTYPE html>\n<html><head>")
+		for i, k := 0, clamp(n, 1, 12); i < k; i++ {
+			form := forms[r.Intn(len(forms))]
+			if i == 0 && p > 0 {
+				form = (p - 1) % 12
+			}
+			l := labels[r.Intn(len(labels))]
+			switch form {
+			case 0:
+				fmt.Fprintf(&b, `<meta charset="%s">`, l)
+			case 1:
+				fmt.Fprintf(&b, `<meta http-equiv="Content-Type" content="text/html; charset=%s">`, l)
+			case 2:
+				fmt.Fprintf(&b, `<meta name="description" content="all about charset=%s and more">`, l)
+			case 3:
+				fmt.Fprintf(&b, `<meta http-equiv="refresh" content="5; url=/x?charset=%s">`, l)
+			case 4:
+				b.WriteString(`<meta http-equiv="content-type">`)
+			case 5:
+				fmt.Fprintf(&b, `<meta content="text/html; charset=%s">`, l)
+			case 6:
+				b.WriteString(`<meta name="viewport" content="width=device-width">`)
+			case 7:
+				b.WriteString(`<meta charset="">`)
+			case 8:
+				fmt.Fprintf(&b, `<!-- <meta charset="%s"> -->`, l)
+			case 9:
+				fmt.Fprintf(&b, `<script>var s = '<meta charset="%s">';</script>`, l)
+			case 10:
+				b.WriteString(`<meta http-equiv="Content-Type" content="text/html">`)
+			case 11:
+				fmt.Fprintf(&b, `<META CONTENT="TEXT/HTML; CHARSET=%s" HTTP-EQUIV="CONTENT-TYPE">`, l)
+			}
+		}
+		b.WriteString("<title>t</title></head><body>")
+		b.Write(textN(40, in.Seed))
+		b.WriteString("</body></html>")
+		return b.Bytes()
 	case "xml_enc":
 		labels := []string{"UTF-8", "ISO-8859-1", "windows-1252", "EUC-JP"}
 		label := labels[v%len(labels)]
@@ -414,6 +465,102 @@ func (in Input) base() []byte {
 				continue
 			}
 			fmt.Fprintf(&b, "{\"id\":%d,\"name\":\"%s\",\"tags\":[\"a\",\"b\"]}\n", i, words[i%50:i%50+7])
+		}
+		return b.Bytes()
+	case "json_lines":
+		// Line-oriented text whose lines are drawn from: objects, arrays, numbers, strings,
+		// literals, blank lines, white-space-only lines, words that are not JSON. V is the
+		// set of kinds in play (bit k = kind k; 0: all), P-1 (if P > 0) the kind of the first
+		// line, N the number of lines. A per-line parser meets every kind of document here,
+		// the degenerate ones (nothing, white space only, a bare scalar) included.
+		var kinds []int
+		for k := 0; k < 8; k++ {
+			if v&(1<<k) != 0 || v&0xff == 0 {
+				kinds = append(kinds, k)
+			}
+		}
+		var b bytes.Buffer
+		for i, k := 0, clamp(n, 1, 400); i < k; i++ {
+			kind := kinds[r.Intn(len(kinds))]
+			if i == 0 && p > 0 {
+				kind = (p - 1) % 8
+			}
+			switch kind {
+			case 0:
+				fmt.Fprintf(&b, "{\"id\":%d,\"w\":\"%s\"}", i, words[i%50:i%50+5])
+			case 1:
+				fmt.Fprintf(&b, "[%d,\"%s\",null]", i, words[i%40:i%40+4])
+			case 2:
+				fmt.Fprintf(&b, "%d", r.Intn(100000)-500)
+			case 3:
+				fmt.Fprintf(&b, "\"%s\"", words[i%45:i%45+6])
+			case 4:
+				b.WriteString([]string{"true", "false", "null"}[r.Intn(3)])
+			case 5:
+			case 6:
+				b.WriteString([]string{" ", "\t", "  \t ", "\r"}[r.Intn(4)])
+			case 7:
+				b.WriteString(words[i%50 : i%50+7])
+			}
+			b.WriteString("\n")
+		}
+		return b.Bytes()
+	case "csv_mix":
+		// Separated values as they come in the wild. Row kinds: 0 plain, 1 quoted cells holding
+		// the separator, 2 a quoted cell holding a line break, 3 blank line, 4 comment line,
+		// 5 plain row ending in CR LF, 6 doubled quotes inside a quoted cell, 7 a bare quote
+		// inside an unquoted cell, 8 an opening quote that is never closed. V bits 0-8: the
+		// kinds in play (none: all but 8), bit 12: tabs instead of commas; P-1 (if P > 0): the
+		// kind of the first row; N rows.
+		sep := ","
+		if v&(1<<12) != 0 {
+			sep = "\t"
+		}
+		var kinds []int
+		for k := 0; k < 9; k++ {
+			if v&(1<<k) != 0 || (v&0x1ff == 0 && k != 8) {
+				kinds = append(kinds, k)
+			}
+		}
+		cols := 2 + int(in.Seed%4)
+		var b bytes.Buffer
+		for i, k := 0, clamp(n, 1, 3000); i < k; i++ {
+			kind := kinds[r.Intn(len(kinds))]
+			if i == 0 && p > 0 {
+				kind = (p - 1) % 9
+			}
+			switch kind {
+			case 3:
+				b.WriteString("\n")
+				continue
+			case 4:
+				fmt.Fprintf(&b, "# %s%s\"x\n", words[i%50:i%50+9], sep)
+				continue
+			}
+			for j := 0; j < cols; j++ {
+				if j > 0 {
+					b.WriteString(sep)
+				}
+				w := words[(i+j)%50 : (i+j)%50+5]
+				switch {
+				case kind == 1 && j%2 == 0:
+					fmt.Fprintf(&b, "\"%s%s %d\"", w, sep, i)
+				case kind == 2 && j == 1:
+					fmt.Fprintf(&b, "\"%s\n%d\"", w, i)
+				case kind == 6 && j == 0:
+					fmt.Fprintf(&b, "\"%s \"\"%d\"\" x\"", w, i)
+				case kind == 7 && j == 1:
+					fmt.Fprintf(&b, "%s\"%d", w, i)
+				case kind == 8 && j == cols-1:
+					fmt.Fprintf(&b, "\"%s %d", w, i)
+				default:
+					fmt.Fprintf(&b, "r%dc%d", i, j)
+				}
+			}
+			if kind == 5 {
+				b.WriteString("\r")
+			}
+			b.WriteString("\n")
 		}
 		return b.Bytes()
 	case "csv", "csv_ragged", "csv_big", "tsv":
